@@ -555,3 +555,87 @@ class _:
                       frame=lambda v, e: {"$fresh-only": ["LA.Row", "LHI.Row", "LLO.Row", "H.Scaffold.name", "H.Scaffold.rows", "H.Scaffold.tag", "H.Scaffold.haplotype",
                                                           "H.Scaffold.rank", "H.Scaffold.original_name", "H.Scaffold.original_tags", "H.$class"]}),
     }
+
+
+# --- bookkeeping of which input contigs the map has placed (C01: what add_missing_scaffolds_from_input and the cut step rely on) ---
+
+FFD = TDict(KEY3, FF)
+ORES = TRef("OverlapResult")
+
+
+@contract("tola.assembly.build_utils.FoundFragment.__init__", kind="init", properties=("C01",))
+class _:
+    params = {"self": FF, "fragment": FRAG}
+    modifies = staticmethod(lambda o: [("field", "FoundFragment", "fragment", o.self), ("field", "FoundFragment", "scaffolds", o.self), ("fresh-lists", ORES), ("alloc",)])
+    ensures = staticmethod(lambda o, n, res: z3.And(n.self.fragment.z == o.fragment.z, n.self.scaffolds.len == 0, n.self.scaffolds.z >= o.alloc, n.self.scaffolds.z < n.alloc))
+    zero_based = staticmethod(lambda o, n, res: [(z3.BoolVal(True), n.self.scaffolds)])
+
+
+@contract("tola.assembly.build_utils.FoundFragment.add_scaffold", properties=("C01",))
+class _:
+    params = {"self": FF, "scaffold": ORES}
+    result = NONE
+    modifies = staticmethod(lambda o: [("list-append", ORES, o.self.scaffolds)])
+
+    @staticmethod
+    def ensures(o, n, res):
+        a, b = o.self.scaffolds, n.self.scaffolds
+        return z3.And(b.len == a.len + 1, b[a.len].z == o.scaffold.z, forall(lambda k: z3.Implies(z3.And(0 <= k, k < a.len), b[k].z == a[k].z)))
+
+
+def _key_of(r):
+    return KEY3.sort().mk(r.name, r.start, r.end)
+
+
+def _store_row_post(v, b, e, o):
+    """one row of the placed piece: a gap row changes nothing; a contig row is recorded under its (name, start, end) -
+    a new record when the contig was not known, the known record otherwise, which then also counts as found more than
+    once - and the piece is added to the record's list of holders"""
+    rows = b.top.scffld.rows
+    k = b._it100
+    r = rows[k]
+    key = _key_of(r)
+    s0, s1 = b.top.store, v.top.store
+    m0, m1 = b.top.multi, v.top.multi
+    other = z3.Const("key!store", KEY3.sort())
+    rec = s1.get(key)
+    same_dicts = z3.ForAll([other], z3.And(s1.has(other) == s0.has(other), s1.raw(other) == s0.raw(other), m1.has(other) == m0.has(other), m1.raw(other) == m0.raw(other)))
+    from pyvc.spec import ObjView
+
+    old_holders = ObjView(b.state, s0.raw(key), "FoundFragment").scaffolds
+    return [
+        ("gap-row-records-nothing", z3.Implies(r.is_gap, same_dicts)),
+        ("contig-row-is-recorded", z3.Implies(r.is_frag, z3.And(s1.has(key), z3.If(s0.has(key), s1.raw(key) == s0.raw(key), z3.And(rec.z >= b.alloc, rec.fragment.z == r.z))))),
+        ("seen-before-means-found-more-than-once", z3.Implies(r.is_frag, z3.If(s0.has(key), z3.And(m1.has(key), m1.raw(key) == s0.raw(key)), m1.has(key) == m0.has(key)))),
+        ("the-piece-is-a-holder", z3.Implies(r.is_frag, z3.And(rec.scaffolds.len == z3.If(s0.has(key), old_holders.len, 0) + 1,
+                                                                  rec.scaffolds[rec.scaffolds.len - 1].z == o.scffld.z))),
+        ("other-records-kept", z3.Implies(r.is_frag, z3.ForAll([other], z3.Implies(other != key, z3.And(
+            s1.has(other) == s0.has(other), s1.raw(other) == s0.raw(other), m1.has(other) == m0.has(other), m1.raw(other) == m0.raw(other)))))),
+    ]
+
+
+@contract(f"{M}.store_fragments_found", properties=("C01",))
+class _:
+    params = {"self": BA, "scffld": ORES}
+    result = NONE
+    inlined = [("tola.assembly.scaffold.Scaffold.fragments", 100)]
+
+    @staticmethod
+    def requires(o):
+        return [("two-dicts", o.self.found_fragments.z != o.self.fragments_found_more_than_once.z),
+                ("records-are-objects", (lambda k: z3.ForAll([k], z3.Implies(o.self.found_fragments.has(k), z3.And(
+                    o.self.found_fragments.raw(k) >= 1, o.self.found_fragments.raw(k) < o.alloc,
+                    o.self.found_fragments.get(k).scaffolds.z >= 1, o.self.found_fragments.get(k).scaffolds.z < o.alloc))))(z3.Const("k!rec", KEY3.sort())))]
+
+    modifies = staticmethod(lambda o: [("dict-maps", KEY3, FF), ("fresh-objs", "FoundFragment", ["fragment", "scaffolds"]), ("fresh-lists", ORES),
+                                       ("map", "LA.Int"), ("map", "LHI.Int"), ("alloc",)])
+
+    loops = {
+        100: LoopSpec(kind="for", inv=lambda v, e, o: [
+            ("counter", z3.And(0 <= v._it100, v._it100 <= v.top.scffld.rows.len)),
+            ("objects", z3.And(v.top.self.z == o.self.z, v.top.scffld.z == o.scffld.z, v.top.store.z == o.self.found_fragments.z, v.top.multi.z == o.self.fragments_found_more_than_once.z,
+                               v.top.scffld.rows.z == o.scffld.rows.z, v.top.scffld.rows.arr == o.scffld.rows.arr, v.top.scffld.rows.lo == o.scffld.rows.lo, v.top.scffld.rows.hi == o.scffld.rows.hi)),
+            ("records-are-objects", (lambda k: z3.ForAll([k], z3.Implies(v.top.store.has(k), z3.And(
+                v.top.store.raw(k) >= 1, v.top.store.raw(k) < v.alloc, v.top.store.get(k).scaffolds.z >= 1, v.top.store.get(k).scaffolds.z < v.alloc))))(z3.Const("k!rec", KEY3.sort()))),
+        ], iter_post=_store_row_post),
+    }
